@@ -12,11 +12,13 @@ def run(c):
               "location) x version generations {0.8.2, 0.10, 0.11, 2.1} (and 0.9, 0.10.2, 1.0, 2.3) x codecs {none, gzip(+levels), snappy, lz4, "
               "zstd} x idempotent ids and sequence numbers (incl. out-of-sequence and failing encoders); newProduceSet/add/buildRequest, the "
               "request encoded by the real encoder and decoded by decodeRequest as the mock broker does, handleSuccess run on the set with "
-              "base offsets up to 2^62; compared: add results, request version, decoded records of every partition (all fields), "
+              "base offsets up to 2^62 and block log-append times, the same set built and encoded a second time (a re-sent batch; record bodies at the "
+              "63|64 and 8191|8192 byte marks); compared: add results, request version, decoded records of every partition (all fields), "
               "partitionSet.msgs, success offsets. (e2e) a real AsyncProducer / SyncProducer (SendMessage, SendMessages) against 1-2 scripted "
               "mock brokers with per-partition logs starting at arbitrary end offsets, leaderless lower-numbered partitions, a scripted "
               "non-consistency / per-message-consistency partitioner, fault scripts (retriable with and without append, fatal, dropped "
-              "connection, idempotent duplicate answered with the original base), metadata changing after the first fault; compared: "
+              "connection, idempotent duplicate answered with the original base; producer id / epoch / sequence rules enforced; failing Value "
+              "encoders that bump the epoch; every request the mock broker cannot decode is recorded), metadata changing after the first fault; compared: "
               "every success (Partition, Offset) against the model's routing and the model's log of the decoded requests; first in the "
               "e2e corpus: the steered replay of the chaser-accepted witness. (recv) every message a broker worker received during "
               "the e2e scenarios (hook bp.recv: flags, closing, currentRetries entry) and what the worker did with it (consumed / bounced / "
